@@ -50,26 +50,41 @@ def or2xorOp (j : Json) : R Json := do
   let e ← parseBExp (← j.getObjVal? "e")
   pure (Json.mkObj [("out", bexpJ (or2xor q e))])
 
-/-- `c15.oracle_class`: is the definition list of an oracle / black box in the class `inXorFragment` of
-`QV.C15.C15_end_to_end_fragment` / `QV.C16.C16_end_to_end_fragment` (one return bit)?  If so and the ancilla
-choices of the real compilation are given, the compiler model is run on them (`uncompute = true`) and its gate
-list, number of qubits and the qubit of the return name are returned, so that the harness can check that the
-oracle inside the algorithm circuit is the one the theorems speak of. -/
+/-- `c15.oracle_class`: which end-to-end theorem of `Props/C15.lean` / `Props/C16.lean` covers the oracle / black
+box with this definition list?  Static part: `in_xor_fragment` (class of `C15_end_to_end_fragment` /
+`C16_end_to_end_fragment`: one tree-like definition, one return bit), `in_general_clean` (`inGeneralClean`, the class
+of the `…_general` theorems, any number of return bits).  If one of them holds and the ancilla choices of the real
+compilation are given, the compiler model is run on them (`uncompute = true`); its gate list, number of qubits and
+the qubits of the return names are returned (the harness compares them with the oracle inside the algorithm
+circuit), together with the side conditions of the general theorems, evaluated on the model's output:
+`xor_general` (one return bit, `inGeneralClean`, return qubit not an argument qubit and never a control:
+`C15_end_to_end_general`, `C16_end_to_end_general`) and `fun_general` (`inGeneralClean`, every return name on a
+non-argument qubit: `C16_end_to_end_simon_general`). -/
 def oracleClassOp (j : Json) : R Json := do
   let inputs ← j.getObjValAs? (List String) "inputs"
   let defs ← Comp.parseDefs (← j.getObjVal? "exprs")
   let rets ← j.getObjValAs? (List String) "ret"
-  let inCls := rets.length == 1 && Compiler.inXorFragment inputs defs rets
-  let base : List (String × Json) := [("in_xor_fragment", toJson inCls)]
-  if !inCls then return Json.mkObj base
+  let inFrag := rets.length == 1 && Compiler.inXorFragment inputs defs rets
+  let inGen := Compiler.inGeneralClean inputs defs rets
+  let base : List (String × Json) := [("in_xor_fragment", toJson inFrag), ("in_general_clean", toJson inGen)]
+  if !(inFrag || inGen) then return Json.mkObj base
   match (j.getObjValAs? (List Nat) "choices").toOption with
   | none => pure (Json.mkObj base)
   | some choices =>
     match (Compiler.compile inputs defs (some rets) true).run { choices := choices } with
     | .error e => pure (Json.mkObj (base ++ [("error", Json.str e)]))
     | .ok ((), s) =>
-      pure (Json.mkObj (base ++ [("gates", gatesJ s.qc.gates.toList), ("num_qubits", toJson s.qc.numQubits),
-        ("ret", optNatJ (rets.head?.bind (Compiler.dictGet? s.qc.qmap))),
+      let gs := s.qc.gates.toList
+      let qs := rets.map (Compiler.dictGet? s.qc.qmap)
+      let above := qs.all fun q => match q with
+        | some q => decide (inputs.length ≤ q)
+        | none => false
+      let xorGen := match qs with
+        | [some q] => inGen && decide (inputs.length ≤ q) && Compiler.retNeverControl gs q
+        | _ => false
+      pure (Json.mkObj (base ++ [("gates", gatesJ gs), ("num_qubits", toJson s.qc.numQubits),
+        ("ret_qubits", Json.arr (qs.map optNatJ).toArray),
+        ("xor_general", toJson xorGen), ("fun_general", toJson (inGen && above)),
         ("choices_left", toJson s.choices.length)]))
 
 def handle (op : String) (j : Json) : Option (R Json) :=
